@@ -82,6 +82,8 @@ package meta
 
 // live(g): not deleted. eff_end(g): the end of the range group g still accepts writes for.
 //@ pure eff_end(g) = ite(g.TruncatedAt.IsZero(), nanos(g.EndTime), nanos(g.TruncatedAt))
+//@ pure disjoint_live(g, s, e) = !g.DeletedAt.IsZero() || eff_end(g) <= s || e <= nanos(g.StartTime)
+//@ pure group_wf(g) = g.TruncatedAt.IsZero() || nanos(g.TruncatedAt) <= nanos(g.EndTime)
 //@ pure clamp_replicas(r, n) = ite(r == 0, 1, ite(r > n, n, r))
 
 // Checked where the new group is appended to the policy (append#2), i.e. before the final sort:
@@ -93,9 +95,11 @@ package meta
 //@   requires nodes_bound: len(data.DataNodes) <= 4096
 //@   requires timestamp_in_nano_range: nanos(timestamp) <= 62135596800000000000 + 9223372036854775806
 //@   requires counters_far_from_wraparound: data.MaxShardID <= 9000000000000000000 && data.MaxShardGroupID <= 9000000000000000000
+//@   requires groups_wf: all(r, group_wf(cast(ShardGroupInfo, r)))
 //@   requires policy_wf: all(r, cast(RetentionPolicyInfo, r).ReplicaN >= 0 && cast(RetentionPolicyInfo, r).ShardGroupDuration > 0)
 //@   loop 1 invariant shardn: 1 <= shardN && 1 <= replicaN && replicaN <= len(data.DataNodes)
 //@   loop 1 assume shardn_bound_C06_4: shardN <= len(data.DataNodes)
+//@   loop 2 invariant disjoint_so_far: all(k, 0, rangeindex+1, disjoint_live(rpi.ShardGroups[k], nanos(startTime), nanos(endTime)))
 //@   loop 2 invariant contains: !timestamp.Before(startTime) && timestamp.Before(endTime)
 //@   loop 3 invariant ids: data.MaxShardID == at_entry(data.MaxShardID) + rangeindex + 1 && len(sgi.Shards) == shardN && fresh(sgi.Shards)
 //@   loop 3 invariant no_owners_yet: all(s, 0, len(sgi.Shards), len(sgi.Shards[s].Owners) == 0)
@@ -109,4 +113,5 @@ package meta
 //@   call append#2 requires shard_count: len(sgi.Shards) == shardN && data.MaxShardID == old(data.MaxShardID) + shardN
 //@   call append#2 requires replicas_clamped: replicaN == clamp_replicas(rpi.ReplicaN, len(data.DataNodes))
 //@   call append#2 requires owners_per_shard: all(s, 0, len(sgi.Shards), len(sgi.Shards[s].Owners) == replicaN)
+//@   call append#2 requires disjoint_from_live_groups: all(k, 0, len(rpi.ShardGroups), disjoint_live(rpi.ShardGroups[k], nanos(sgi.StartTime), nanos(sgi.EndTime)))
 //@   call append#2 requires contains_timestamp: !timestamp.Before(sgi.StartTime) && timestamp.Before(sgi.EndTime)
